@@ -86,7 +86,11 @@ pub fn pattern_array(input: ParseString) -> ParseResult<PatternArray> {
   input = next_input;
 
   let mut tokens = Vec::new();
+  #[cfg(mech_verif)]
+  let verif_id = crate::verif_hooks::enter("pattern_array");
   loop {
+    #[cfg(mech_verif)]
+    crate::verif_hooks::progress(verif_id, "pattern_array", input.cursor, input.graphemes.len());
     if let Ok((next_input, _)) = right_bracket(input.clone()) {
       input = next_input;
       break;
